@@ -200,3 +200,30 @@ Theorem C12_adjacency_test : forall t,
   find_first c_lp (c_pct :: t) = Some 1 <-> exists r, t = c_lp :: r.
 Proof. exact adjacency_test. Qed.
 Print Assumptions C12_adjacency_test.
+
+(* ---- more non-vacuity: the premises of the rejection, MacroMetadata and multi-line theorems
+   are satisfiable, with the computed outcomes ---- *)
+Example C12_rejects_nonvacuous :
+  ~ In c_rp ex_name /\ ~ In c_colon ex_name /\ attr_of_name ex_name = None /\
+  ~ In c_rp (fspec (Some [62; 53]%N)) /\
+  generate (print ex_pat ++ [c_pct; c_lp] ++ ex_name ++ fspec (Some [62; 53]%N) ++ [c_rp] ++ [33%N])
+    = GErr (GE_unknown ex_name) /\
+  generate (print ex_pat ++ [c_pct; c_lp] ++ ex_name) = GErr GE_unterminated.
+Proof. exact ex_unknown_name. Qed.
+Print Assumptions C12_rejects_nonvacuous.
+
+Example C12_mm_nonvacuous :
+  (ex_dir = [] \/ exists d, ex_dir = d ++ [c_slash]) /\
+  ~ In c_slash ex_fname /\ ~ In c_slash ex_line /\ ~ In c_colon ex_line /\
+  (N.of_nat (length (ex_dir ++ ex_fname ++ [c_colon] ++ ex_line)) < 65536)%N /\
+  mm_file_name (ex_dir ++ ex_fname ++ [c_colon] ++ ex_line) = ex_fname.
+Proof. exact ex_mm. Qed.
+Print Assumptions C12_mm_nonvacuous.
+
+Example C12_multiline_nonvacuous :
+  nargs_empty None = true /\
+  dispatch_msgs true None [97; 10; 10; 98; 10]%N = Some [[97%N]; []; [98%N]] /\
+  dispatch_msgs false None [97; 10; 10]%N = Some [[97; 10]%N] /\
+  dispatch_msgs true (Some [([107%N], [118%N])]) [97; 10; 98]%N = Some [[97; 10; 98]%N].
+Proof. exact ex_multiline. Qed.
+Print Assumptions C12_multiline_nonvacuous.
